@@ -811,7 +811,57 @@ def exhaustive(tier):
     return tier == "thorough"
 
 
-RULE = "i/h: ICP and HTCP datagrams through icpHandleUdp/htcpRecv; s/S: SNMP datagrams (reference BER encoder, structural truncations, buffer-filling sizes, mutations) through snmp_parse"
-TRUSTED = []
-ASSUMPTIONS = []
-MANIFEST = {"text": "partial: (under construction)", "note": "", "technique": "", "engine": "lean+asan"}
+RULE = ("i <dg> <stale>: icpHandleUdp on its own static buffer (wrapped recvfrom): every length 1..27 x v2/v3, every opcode x v2/v3, reference "
+        "messages (RFC 2186) with URLs from a pool / random / 16 KB, unterminated, embedded NUL, lying length field, missing requester "
+        "address, raw and consistent truncations, mutations, sizes 16380..16500; h <dg> <stale> <m|->: htcpRecv likewise: every opcode x RR x "
+        "F1 x both bit-field layouts, structural truncation of TST/CLR/response payloads at every offset, lying counted-string lengths, "
+        "DATA/total length lies, missing AUTH with stale octets behind the datagram, sizes 8187..8300, outstanding-query flag; "
+        "s <dg> <tail>: snmp_parse in snmpHandleUdp's geometry (zeroed 4096-octet buffer, <tail> behind it): all 1-octet and (thorough) all "
+        "2-octet datagrams, messages from a reference BER encoder (versions, communities 0..129 octets, all PDU types, OIDs up to 130 arcs "
+        "and 2^35 sub-identifiers, every value type, long-form lengths), all structural truncations (message ends after/before every "
+        "node with enclosing lengths recomputed), raw prefixes, mutations, messages stretched to 4088..4300 octets incl. the ones ending in "
+        "a partial object; S: the same with arbitrary octets directly behind the datagram; e <proto> <dg> (thorough): the relinked "
+        "address-sanitized squid with the three ports enabled: MIB walks (GET/GETNEXT/GETBULK from ~2800 OIDs incl. bad table instances), "
+        "answered ICP queries and neighbor replies, allowed HTCP TST/CLR, a sample of the streams above, buffer-filling SNMP datagrams; "
+        "HTTP liveness probe after every 20 datagrams. non-trivial = decoding got past the framing (s: ok or failed inside PDU/bindings; "
+        "i: a URL was extracted; h: an unpacker ran; e: squid replied); distinct = distinct input lines")
+TRUSTED = ["modelled, not verified: memcpy/ntohs/ntohl/strlen get their list/arithmetic meaning; `value << 8` on a negative int in "
+           "asn_parse_int (formally undefined) is given the two's complement meaning every compiler here gives it (UBSan's shift-base "
+           "check is off for the code under test); the C bit-fields of htcpDataHeader/htcpDataHeaderSquid are modelled by their x86-64 "
+           "layout and tied by the differential run for both `minor` values",
+           "access tracking: the code under test is compiled with outlined ASan checks (--param asan-instrumentation-with-call-threshold=0, "
+           "recover mode) that the harness intercepts (harness/c39_track.h) plus --wrap'ed libc string/memory routines; `over` is what "
+           "these report, compared with the model's prediction on every case",
+           "the in-process ICP/HTCP harness links the whole squid but wraps comm_udp_recvfrom/comm_udp_sendto/Comm::SetSelect/clientdb*/"
+           "neighborsUdpAck/neighborsHtcpReply; squid is not configured there (no ACLs: every query is denied after URL parsing)"]
+ASSUMPTIONS = ["len < buffer size: recvfrom is given one octet less than each static buffer (checked on the source text by the translator: "
+               "a constant of 0 in Gen.UdpLimits breaks the proofs otherwise)",
+               "single-process squid (-N): the SMP path of snmpConstructReponse (Snmp::Forwarder) is not exercised",
+               "end-to-end: only the listed translation units are ASan-instrumented (heap and libc interceptors are process-wide)"]
+MANIFEST = {
+    "engine": "e2e",
+    "text": "partial: the statement is false for SNMP in the tree as found and proved so: asn_parse_* read identifier/length octets before "
+            "looking at the remaining length, so a datagram of 4093..4095 octets that ends where an object is expected makes the decoder read "
+            "1..5 octets behind snmpHandleUdp's 4096-octet buffer (theorems snmp_no_oob_counterexample_4095/_4095_deep/_4093 by kernel "
+            "evaluation of the model on concrete datagrams; reproduced in-process and on the relinked address-sanitized squid: ASan "
+            "global-buffer-overflow 0 bytes right of `buf`, squid stops). Proved for every datagram and every memory content around it: the "
+            "SNMP decoder (asn_parse_length/header/int/unsigned_int/string/objid, snmp_msg_Decode, snmp_pdu_decode, "
+            "snmp_var_DecodeVarBind) touches at most 6 octets behind the datagram, at most 4 when the two octets behind it are zero "
+            "(snmpHandleUdp's memset), hence nothing outside the buffer for datagrams of at most 4092 octets (snmp_no_oob_partial), and "
+            "nothing behind the datagram at all with the candidate fix (snmp_no_oob_fixed; the model carries both variants, a flag read "
+            "from the source selects the one the driver runs); decoding always terminates in a message or one of squid's failure classes "
+            "and whatever is decoded fits Community[128], Var->name[64] and TmpBuf[64]. ICP (icpHandleUdp, icpHandleIcpV2/V3, "
+            "icpGetUrl): all reads inside the datagram, the only store is the terminator behind it, inside the buffer; an extracted URL is "
+            "exactly the NUL-free payload; the (even fully escaped) reply length fits 16 bits. HTCP (htcpHandleMsg, TST/CLR handlers, "
+            "htcpUnpackSpecifier/Detail): all reads inside the datagram, stores only zeros and at most one octet behind it, inside the "
+            "buffer. The models are tied to the real code by a differential run that also compares how far behind the datagram the code "
+            "reached; the live UDP ports of an address-sanitized squid are exercised in the thorough tier with an HTTP liveness probe. "
+            "The model cannot exhibit: use after free, what the handlers do after decoding (URL parsing, ACL checks, store lookups, "
+            "SNMP agent tree walk, reply construction), event-loop behaviour; these are covered only by the sanitizer runs",
+    "note": "trusted: Lean kernel (+axioms as printed), translator of buffer sizes/capacities/variant flag, access-tracking harness, python "
+            "reference encoders; specified not verified: libc primitives, bit-field layout; not modelled: snmp_core.cc tree walk and "
+            "snmp_agent.cc, neighbors.cc, HttpRequest::FromUrlXXX, heap lifetime",
+    "technique": "Lean 4 proof (access-extent monad, generic bound parametrised by a header-read predicate with three instances, induction on "
+                 "the iteration budget, kernel-evaluated counterexamples) + constants/variant translator + ASan(recover, outlined) access "
+                 "tracking differential run + relinked address-sanitized squid end to end",
+}
